@@ -15,6 +15,7 @@ import itertools
 import json
 import time
 
+from harness import c05_guard as G
 from harness import c05_x as X5
 from harness import c11_x as X
 from harness.common import Ctx, REPO, git_blob
@@ -28,16 +29,30 @@ def _sample(case):
         "n_nodes": len(case["nodes"]), "n_edges": len(case["edges"]), "edges_head": case["edges"][:6]}
 
 
+class StopGeneration(Exception):
+    pass
+
+
 class Runner:
     def __init__(self, ctx):
         self.ctx = ctx
         self.terms, self.meta, self.weight, self.direct_fail, self.single_fail = [], [], [], [], []
         self.engine_s = 0.0
+        self.nonterm = []
+
+    def note_nonterm(self, case, e):
+        self.nonterm.append((case, str(e)))
+        if len(self.nonterm) >= 3:
+            raise StopGeneration() from e
 
     def add(self, case):
         t0 = time.time()
         try:
             recs, cap = X.run_impl(case, capture=True)
+        except G.NonTermination as e:
+            self.engine_s += time.time() - t0
+            self.note_nonterm(case, e)
+            return
         except Exception as e:  # noqa: BLE001
             self.engine_s += time.time() - t0
             self.direct_fail.append((case, {"error": repr(e)[:800]}))
@@ -56,6 +71,10 @@ class Runner:
             t0 = time.time()
             try:
                 recs, cap = X.call_on(api, c, capture=True)
+            except G.NonTermination as e:
+                self.engine_s += time.time() - t0
+                self.note_nonterm(c, e)
+                return
             except Exception as e:  # noqa: BLE001
                 self.engine_s += time.time() - t0
                 self.direct_fail.append((c, {"error": repr(e)[:800]}))
@@ -207,15 +226,29 @@ def run(ctx: Ctx):
     ctx.cov["modelled_sources"] = {p: git_blob(REPO / p) for p in
                                    ["splink/internals/clustering.py", "splink/internals/misc.py"]}
     R = Runner(ctx)
-    if ctx.replay:
-        rp = json.loads(open(ctx.replay).read())
-        if rp.get("case"):
-            R.add(rp["case"])
+    try:
+        if ctx.replay:
+            rp = json.loads(open(ctx.replay).read())
+            if rp.get("case"):
+                R.add(rp["case"])
+            else:
+                generate(ctx, R)
         else:
             generate(ctx, R)
-    else:
-        generate(ctx, R)
-        witness_negative_weight(ctx)
+            witness_negative_weight(ctx)
+    except StopGeneration:
+        ctx.log("generation stopped: the implementation does not terminate on the inputs tried")
+    for case, why in sorted(R.nonterm, key=lambda cw: len(cw[0]["nodes"]))[:3]:
+        ctx.violation("multi-threshold clustering does not terminate: " + why,
+                      {"case": case, "implementation": why,
+                       "specification": "every inner clustering needs at most |V|^2+1 passes (C05_terminates)"},
+                      dict(X.features_of(case), non_termination=True))
+    ctx.obligation("every call terminated within the proved pass bound and the time limit", not R.nonterm)
+    if X5.CONVERSION_BAD:
+        ctx.violation("threshold_args_to_match_prob(None, w) is not within 2 ulp of 2^w/(1+2^w)",
+                      {"case": X5.CONVERSION_BAD[0], "all": X5.CONVERSION_BAD[:10]}, {"weight_conversion": True})
+    ctx.obligation(f"match-weight conversion within 2 ulp of 2^w/(1+2^w) ({len(X5.CONVERSION_CHECKED)} weights)",
+                   not X5.CONVERSION_BAD)
     ctx.log(f"generated {len(R.meta)} cases ({R.engine_s:.1f}s in the engines); evaluating the model in Coq")
     for case, info in R.direct_fail[:3]:
         small = X.shrink(case)
